@@ -114,7 +114,7 @@ def run_case(case):
         obs.nt = ("invalid", I, T)
         return obs
 
-    sched = simkit.Sched(choices=case.get("choices", []), preempt=case.get("preempt"), preempt_at=case.get("preempt_at"), horizon=100000.0, repo=REPO, max_steps=3_000_000)
+    sched = simkit.Sched(choices=case.get("choices", []), preempt=case.get("preempt"), preempt_at=case.get("preempt_at"), fallback=case.get("fallback", 0), horizon=100000.0, repo=REPO, max_steps=3_000_000)
     net = simkit.SimNet(sched)
     lat = case.get("pong", [])
     silent_from = case.get("silent_from")
